@@ -758,6 +758,10 @@ where
         sum_a += a;
         a
     });
+    if sum_a == V::zero() {
+        // no conditional carrying belief mass has a positive base rate
+        return None;
+    }
     for y in U::indexes() {
         ay[y] /= sum_a;
     }
